@@ -127,6 +127,8 @@ class Ctx:
     def assume_type_inv(self, v, ty):
         if ty == ASTR:
             self.assume(alen(v.t) >= 0)
+            kc = z3.Int(self.fresh_name("k"))       # characters are code points
+            self.assume(z3.ForAll([kc], z3.And(aat(v.t, kc) >= 0, aat(v.t, kc) <= 0x10FFFF), patterns=[aat(v.t, kc)]))
         elif ty.name == "List":
             sv = v.sym if isinstance(v, Cell) else v
             s = sort_of(ty)
